@@ -47,6 +47,17 @@ theorem tryMerge_eq_join (a b : Flags) : tryMerge a b = joinFlags a b := by
     | none => cases x <;> rfl
     | some y => cases x <;> cases y <;> rfl
 
+/-- "Flags merged": `try_merge` is the join of the chain `none < HighStorageResolution < NoMetric` —
+commutative, associative, idempotent, with `none` neutral — so the order and number of `ForceFlag`
+layers never matters and a forced flag never weakens a value's own flag. -/
+theorem c15_try_merge_is_join (a b c : Flags) :
+    tryMerge a b = joinFlags a b ∧ tryMerge a b = tryMerge b a ∧
+    tryMerge (tryMerge a b) c = tryMerge a (tryMerge b c) ∧ tryMerge a a = a ∧
+    tryMerge a none = a ∧ tryMerge none a = a := by
+  refine ⟨tryMerge_eq_join a b, ?_, ?_, ?_, ?_, ?_⟩ <;>
+  · rcases a with _ | a <;> rcases b with _ | b <;> rcases c with _ | c <;>
+      (try cases a) <;> (try cases b) <;> (try cases c) <;> rfl
+
 theorem apply_flagVW {ρ : Type} (f : Mode) (w : VWriter ρ) (c : VCall) :
     VCall.apply (flagVW f w) c = VCall.apply w (c.forceFlag f) := by
   cases c with
@@ -671,6 +682,7 @@ end Wrappers
 
 #print axioms Wrappers.c15_value_transparent
 #print axioms Wrappers.c15_dyn_never_panics
+#print axioms Wrappers.c15_try_merge_is_join
 #print axioms Wrappers.c15_value_dims_after_existing
 #print axioms Wrappers.c15_value_flags_merged
 #print axioms Wrappers.c15_value_containers_id
